@@ -227,6 +227,149 @@ def extract(repo):
                          'ide::FileId -> tuple struct']}
 
 
+# ---------------------------------------------------------------------------------------------------------------
+# "session" variant (C15, clause "several changes where an earlier one is rejected"): Server::on_did_change with the
+# real Vfs::{change_file_content, remove_uri, file_for_uri, file_for_path, ..}.  Differences to the variant above, all
+# in stand-ins: Slab keeps vacated slots (remove / "invalid key" panic like the real crate), Vfs has its third field
+# `local_file_set`, and the glue types of server.rs that the notification handler touches are reduced to what it uses.
+SESSION_STANDINS = r'''
+// ======================= additional stand-ins of the session variant (NOT glas code) =======================
+use std::ops::ControlFlow;
+/// std::sync::RwLock in a single-threaded harness: a RefCell (the futex paths of the real lock cost CBMC minutes)
+pub struct RwLock<T>(std::cell::RefCell<T>);
+impl<T> RwLock<T> {
+    pub fn new(v: T) -> Self { RwLock(std::cell::RefCell::new(v)) }
+    pub fn write(&self) -> core::result::Result<std::cell::RefMut<'_, T>, ()> { Ok(self.0.borrow_mut()) }
+    pub fn read(&self) -> core::result::Result<std::cell::Ref<'_, T>, ()> { Ok(self.0.borrow()) }
+}
+/// lsp_types::Url: an opaque identifier
+#[derive(Debug, Clone, PartialEq, Eq)]
+pub struct Url(pub u32);
+/// ide::VfsPath
+#[derive(Debug, Clone, PartialEq, Eq)]
+pub struct VfsPath(pub u32);
+/// crate::UrlExt::to_vfs_path
+impl Url { pub fn to_vfs_path(&self) -> VfsPath { VfsPath(self.0) } }
+/// ide::FileSet: the two maps, as association lists
+#[derive(Debug, Default)]
+pub struct FileSet { files: Vec<(VfsPath, FileId)> }
+impl FileSet {
+    pub fn insert(&mut self, file: FileId, path: VfsPath) { self.files.push((path, file)); }
+    pub fn remove_file(&mut self, file: FileId) { self.files.retain(|e| e.1 != file); }
+    pub fn file_for_path(&self, path: &VfsPath) -> Option<FileId> {
+        for e in self.files.iter() { if e.0 == *path { return Some(e.1); } }
+        None
+    }
+}
+/// lsp_types::{DidChangeTextDocumentParams, VersionedTextDocumentIdentifier, TextDocumentContentChangeEvent}
+#[derive(Debug)]
+pub struct VersionedTextDocumentIdentifier { pub uri: Url, pub version: i32 }
+#[derive(Debug)]
+pub struct TextDocumentContentChangeEvent { pub range: Option<Range>, pub range_length: Option<u32>, pub text: String }
+#[derive(Debug)]
+pub struct DidChangeTextDocumentParams { pub text_document: VersionedTextDocumentIdentifier, pub content_changes: Vec<TextDocumentContentChangeEvent> }
+pub type NotifyResult = ControlFlow<Result<()>>;
+/// server.rs FileData
+pub struct FileData { pub diagnostics_task: Option<u32> }
+/// glas::server::Server reduced to the fields on_did_change touches; the two follow-up calls are recorded
+pub struct Server { vfs: Arc<RwLock<Vfs>>, opened_files: FxHashMap<Url, FileData>, applied: u32, diagnostics_for: Vec<Url> }
+impl Server {
+    fn apply_vfs_change(&mut self) { self.applied += 1; }
+    fn spawn_update_diagnostics(&mut self, uri: Url) { self.diagnostics_for.push(uri); }
+}
+impl<K: PartialEq, V> FxHashMap<K, V> {
+    pub fn remove(&mut self, k: &K) -> Option<V> {
+        let mut i = 0;
+        while i < self.entries.len() { if self.entries[i].0 == *k { return Some(self.entries.remove(i).1); } i += 1; }
+        None
+    }
+}
+// ======================= end of the additional stand-ins =======================
+'''
+
+ANYHOW_STANDIN = r'''/// stands in for anyhow (session variant only): an error is a unit value; ensure! / with_context keep their control flow
+#[derive(Debug)]
+pub struct Error;
+pub type Result<T, E = Error> = core::result::Result<T, E>;
+macro_rules! ensure { ($c:expr, $($t:tt)*) => { if !($c) { return Err(Error); } }; ($c:expr) => { if !($c) { return Err(Error); } }; }
+pub trait Context<T> { fn with_context<C, F: FnOnce() -> C>(self, f: F) -> Result<T>; }
+impl<T> Context<T> for Option<T> { fn with_context<C, F: FnOnce() -> C>(self, _f: F) -> Result<T> { match self { Some(v) => Ok(v), None => Err(Error) } } }
+impl<T, E> Context<T> for core::result::Result<T, E> { fn with_context<C, F: FnOnce() -> C>(self, _f: F) -> Result<T> { match self { Ok(v) => Ok(v), Err(_) => Err(Error) } } }
+'''
+
+SESSION_SLAB = r'''/// stands in for slab::Slab (session variant): vacated slots stay vacated; indexing one panics like the real crate
+#[derive(Debug, Clone)]
+pub struct Slab<T> { entries: Vec<Option<T>> }
+impl<T> Slab<T> {
+    pub fn new() -> Self { Slab { entries: Vec::new() } }
+    pub fn len(&self) -> usize { self.entries.len() }
+    pub fn remove(&mut self, k: usize) -> T { self.entries[k].take().expect("invalid key") }
+}
+impl<T> std::ops::Index<usize> for Slab<T> {
+    type Output = T;
+    fn index(&self, k: usize) -> &T { match self.entries.get(k) { Some(Some(v)) => v, _ => panic!("invalid key") } }
+}
+impl<T> std::ops::IndexMut<usize> for Slab<T> {
+    fn index_mut(&mut self, k: usize) -> &mut T { match self.entries.get_mut(k) { Some(Some(v)) => v, _ => panic!("invalid key") } }
+}
+'''
+
+
+def extract_session(repo):
+    """crate text of the session variant: everything of extract() plus Vfs::{remove_uri, file_for_uri, file_for_path} and
+    Server::on_did_change, verbatim; dropped: the `tracing::error!(..)` statement of on_did_change; rewritten: the module
+    path in `convert::from_range` (single-module file)."""
+    global VFS_ROOTS
+    old_roots = VFS_ROOTS
+    VFS_ROOTS = old_roots + ('remove_uri', 'file_for_uri', 'file_for_path')
+    try:
+        ex = extract(repo)
+    finally:
+        VFS_ROOTS = old_roots
+    text = ex['text']
+    # swap the Slab stand-in and the Vfs struct
+    a = text.index('/// stands in for slab::Slab:')
+    b = text.index('/// field-identical to lsp_types::{Position, Range, SemanticToken}')
+    text = text[:a] + SESSION_SLAB + text[b:]
+    text = text.replace('pub struct Vfs { files: Slab<(Arc<str>, Arc<LineMap>)>, change: Change }',
+                        'pub struct Vfs { files: Slab<(Arc<str>, Arc<LineMap>)>, local_file_set: FileSet, change: Change }')
+    text = text.replace('impl Change { pub fn change_file(&mut self, file: FileId, text: Arc<str>) { self.calls.push((file, text)); } }',
+                        'impl Change { pub fn change_file(&mut self, file: FileId, text: Arc<str>) { self.calls.push((file, text)); }\n    pub fn set_structural_change(&mut self) { self.is_structural_change = true; } }')
+    text = text.replace('pub struct Change { pub calls: Vec<(FileId, Arc<str>)> }', 'pub struct Change { pub calls: Vec<(FileId, Arc<str>)>, pub is_structural_change: bool }')
+    text = text.replace('// ======================= end of stand-ins =======================', '// ======================= end of stand-ins =======================\n' + SESSION_STANDINS, 1)
+    # anyhow -> a unit error type with the same control flow (dropping a real anyhow::Error makes CBMC walk its vtable
+    # recursion for > 15 min, and Server::on_did_change drops errors itself through `.ok()?`)
+    if 'use anyhow::{ensure, Context, Result};' not in text:
+        raise AnchorLost('stand-in header changed')
+    text = text.replace('use anyhow::{ensure, Context, Result};', ANYHOW_STANDIN, 1)
+    srv = Source(os.path.join(repo, 'crates/glas/src/server.rs'))
+    s, o, c = srv.cut_braced(r'^impl Server\b', 0)
+    t, line = cut_fn(srv, (o + 1, c), 'on_did_change', 1)
+    # drop the tracing statement(s): `tracing::error!( .. );`
+    dropped = list(ex['dropped'])
+    while True:
+        mm = re.search(r'^[ \t]*tracing::\w+!\s*\(', t, re.M)
+        if not mm:
+            break
+        from rustcut import code_mask, match_brace
+        po = t.index('(', mm.start())
+        pc = match_brace(t, code_mask(t), po, '(', ')')
+        end = t.index(';', pc) + 1
+        if end < len(t) and t[end] == '\n':
+            end += 1
+        t = t[:mm.start()] + t[end:]
+        dropped.append('a `tracing::..!(..)` statement in Server::on_did_change')
+    t, n = re.subn(r'\bconvert::(from_range)\b', r'\1', t)
+    text += '// ---- Server::on_did_change  (crates/glas/src/server.rs:%d)\nimpl Server {\n%s\n}\n' % (line, t)
+    ex2 = dict(ex)
+    ex2['text'] = text
+    ex2['functions'] = ex['functions'] + ['Server::on_did_change (crates/glas/src/server.rs:%d)' % line]
+    ex2['dropped'] = dropped + ['module path in `convert::from_range` (%d)' % n]
+    ex2['standins'] = ex['standins'] + ['session variant: slab::Slab -> Vec<Option<T>> with remove / "invalid key" panic; lsp_types::Url and ide::VfsPath -> opaque ids; ide::FileSet -> association list; '
+                                       'std::sync::RwLock -> RefCell; anyhow -> unit error type (ensure!/with_context keep their control flow); Server reduced to {vfs, opened_files} with apply_vfs_change / spawn_update_diagnostics recorded; DidChangeTextDocumentParams etc. field-identical structs; std::collections::HashMap -> association list']
+    return ex2
+
+
 CARGO_TOML = '''[package]
 name = "verif_linemap"
 version = "0.0.0"
@@ -247,8 +390,8 @@ def lock_version(lock, name):
     return mm.group(1)
 
 
-def write_crate(repo, dest, harness_text):
-    ex = extract(repo)
+def write_crate(repo, dest, harness_text, session=False):
+    ex = extract_session(repo) if session else extract(repo)
     os.makedirs(os.path.join(dest, 'src'), exist_ok=True)
     lock = open(os.path.join(repo, 'Cargo.lock')).read()
     open(os.path.join(dest, 'Cargo.toml'), 'w').write(CARGO_TOML % {
